@@ -45,6 +45,7 @@ const maxSeen = 6_000_000
 var longTrace = func() int { n, _ := strconv.Atoi(os.Getenv("VERIF_TRACE_LONG")); return n }()
 
 type explorer struct {
+	idleExecs, idleFires int64 // executions in which / times the idle rule fired a timer by default
 	cfg   Config
 	r     *enum.R
 	st    Stats
@@ -122,6 +123,10 @@ func Explore(r *enum.R, cfg Config) Stats {
 	r.Count("horizon_hits", e.st.Horizon)
 	r.Count("hb_pruned_subtrees", e.st.Pruned)
 	r.Count("panicking_executions", e.st.Panics)
+	// how often the idle rule (a timer fires by default because every running thread only repeats
+	// itself) shaped the schedules: visible, so that a heuristic that fires too eagerly shows
+	r.Count("executions_with_idle_timer_fires", e.idleExecs)
+	r.Count("idle_timer_fires", e.idleFires)
 	if e.st.Horizon > 0 {
 		r.Cap(fmt.Sprintf("%s: step horizon %d hit in %d executions", cfg.Name, cfg.MaxSteps, e.st.Horizon))
 	}
@@ -137,6 +142,10 @@ func Explore(r *enum.R, cfg Config) Stats {
 // judge classifies a finished execution and records violations. Returns true if bad.
 func (e *explorer) judge(x *Exec, replaying bool) bool {
 	var faults []Fault
+	if x.IdleFires > 0 {
+		e.idleExecs++
+		e.idleFires += int64(x.IdleFires)
+	}
 	switch {
 	case strings.HasPrefix(x.Status, "deadlock"):
 		e.st.Deadlocks++
